@@ -31,7 +31,7 @@ func joinedOrdered(method string, extra ...interface{}) Pair {
 // Shift: clones used by Insert (C02).
 func Shift(p *core.Prog, r *core.Report) {
 	r.Rule("SIBLING", ruleText, 2)
-	Check(p, r, Pair{Rule: "SIBLING", Pkg: core.PkgGts, A: "Ranged.Shift", B: "Ambiguous.Shift", Drop: []string{"partial"},
+	Check(p, r, Pair{Rule: "SIBLING", Pkg: core.PkgGts, A: "Ranged.Shift", B: "Ambiguous.Shift", Drop: []string{"partial"}, Fold: map[string]string{"recv.Partial": "partial"},
 		Subst: sub("Range", "Ambiguous", 2, "Ranged", "Ambiguous", 1, "Join", "Order", 1),
 		Why:   "a range and an ambiguous span move and split at an insertion point by the same coordinate rules; only the partial markers and the joining constructor differ"})
 	Delegate(p, r, "Shift")
@@ -42,7 +42,7 @@ func Shift(p *core.Prog, r *core.Report) {
 // Expand: clones used by Delete/Slice/Embed (C03, also C02).
 func Expand(p *core.Prog, r *core.Report) {
 	r.Rule("SIBLING", ruleText, 1)
-	Check(p, r, Pair{Rule: "SIBLING", Pkg: core.PkgGts, A: "Ranged.Expand", B: "Ambiguous.Expand", Drop: []string{"partial", "j"},
+	Check(p, r, Pair{Rule: "SIBLING", Pkg: core.PkgGts, A: "Ranged.Expand", B: "Ambiguous.Expand", Drop: []string{"partial", "j"}, Fold: map[string]string{"recv.Partial": "partial"},
 		Subst: sub("Ranged", "Ambiguous", 1),
 		Why:   "a range and an ambiguous span grow and shrink by the same boundary rules; only the partial markers differ"})
 	Delegate(p, r, "Expand")
